@@ -4,7 +4,7 @@ import copy
 import random
 import signal
 
-from . import gen, obs, ops, oracles
+from . import gen, obs, ops, ops_io, oracles, simfs
 from .core import Abort, Hang, Precondition, Violation, World, call, exc_class
 
 # ---------------------------------------------------------------------------- focus table
@@ -20,6 +20,17 @@ FOCUS = {
     'C05': dict(roots=[(0, 1), (1, 1)], armed=['c05'], faults=['F-ORD'], hist=['sched']),
     'C06': dict(roots=[(0, 1), (1, 1)], armed=['c03', 'c04', 'c05', 'attrs'], scope='derived', faults=['F-ORD'],
                 hist=[], derive=['slice'], p_derive=[0.15, 0.3], p_node=[0.1, 0.2]),
+    'C09': dict(roots=[(0, 1), (1, 1)], armed=['c03', 'c04', 'c05'], scope='derived', faults=['F-ORD'], hist=[],
+                derive=['restart:snapshots', 'parse:snapshots'], p_derive=[0.2, 0.35], level='fault_enumeration',
+                io_faults=True, variants=True, steps_cap=20),
+    'C10': dict(roots=[(0, 1), (1, 1)], armed=['c03', 'c04', 'c05'], scope='derived', faults=['F-ORD'], hist=[],
+                derive=['restart:interactions', 'parse:interactions'], p_derive=[0.2, 0.35], level='fault_enumeration',
+                io_faults=True, variants=True, steps_cap=20),
+    'C11': dict(roots=[(0, 1), (1, 1)], armed=['c03', 'c04', 'c05', 'attrs'], scope='derived', faults=['F-ORD'], hist=[],
+                derive=['restart:json'], p_derive=[0.2, 0.35], p_node=[0.15, 0.3], steps_cap=20),
+    'C18': dict(roots=[(0, 1), (1, 1)], armed=['c03', 'c05'], scope='derived', faults=['F-ORD'], hist=[],
+                derive=['parse', 'parse', 'parse', 'compact'], p_derive=[0.5, 0.7], level='fault_enumeration',
+                variants=True, steps_cap=12),
     'C16': dict(roots=[(0, 1), (1, 1)], armed=['c03', 'c04', 'c05', 'attrs'], scope='derived', faults=['F-ORD'],
                 hist=[], derive=['convert', 'alias'], p_derive=[0.15, 0.3], p_node=[0.1, 0.25]),
     'C07': dict(roots=[(0, 1), (1, 1), (0, 0), (1, 0)], armed=['c07'], level='fault_enumeration', variants=True,
@@ -48,7 +59,10 @@ def _alarm(signum, frame):
 
 def op_window(world, rep, op):
     ext = [op.get('t'), op.get('e'), op.get('t_from'), op.get('t_to')]
-    return oracles.window(rep.m, [x for x in ext if isinstance(x, int)])
+    lo, hi = oracles.window(rep.m, [x for x in ext if isinstance(x, int)])
+    if hi - lo > 300:
+        raise Abort('instant window too wide for a sweep (%d): operation aimed at a replica of another origin' % (hi - lo))
+    return lo, hi
 
 
 # ---------------------------------------------------------------------------- one step
@@ -65,7 +79,7 @@ def execute(world, op):
             second_schedule(world, op)
         return {'out': 'ok', 'fault': False, 'cls': 'sched_b', 'keys': []}
     world.history.append(op)
-    rep = world.reps[op['g']] if 0 <= op.get('g', 0) < len(world.reps) else None
+    rep = world.rep_by_id(op.get('g', 0))
     if rep is None:
         return {'out': 'skipped', 'fault': False, 'cls': 'skip', 'keys': []}
     c07 = (not world.quiet) and 'c07' in world.armed and kind in ('add', 'bulk')
@@ -87,6 +101,12 @@ def execute(world, op):
         out = ops.do_convert(world, rep, op)
     elif kind == 'mutate_attr':
         out = ops.do_mutate_attr(world, rep, op)
+    elif kind == 'restart':
+        out = ops_io.do_restart(world, rep, op)
+    elif kind == 'parse':
+        out = ops_io.do_parse(world, rep, op)
+    elif kind == 'compact':
+        out = ops_io.do_compact(world, rep, op)
     else:
         raise ValueError(kind)
     if out['out'] == 'skipped':
@@ -185,6 +205,7 @@ def gen_step(world, rng, cfg):
     spec = FOCUS[world.focus]
     rep_i = rng.randrange(len(world.reps))
     rep = world.reps[rep_i]
+    rep_i = world.rid_of(rep_i)
     x = rng.random()
     fault = None
     if x < cfg['p_fault']:
@@ -195,12 +216,31 @@ def gen_step(world, rng, cfg):
         d = rng.choice(derive)
         if d == 'alias':
             op = gen.gen_mutate_attr(rng, rep, cfg)
+        elif d == 'compact':
+            op = gen.gen_compact(rng, cfg)
+        elif d.startswith('parse'):
+            if len(world.reps) < 5:
+                op = gen.gen_parse(rng, cfg)
+                if ':' in d:
+                    op['fmt'] = d.split(':')[1]
+                    op['rows'] = gen.gen_rows(rng, cfg, op['fmt'], op['directed'])
+                    op['noise'] = [[min(p, len(op['rows'])), k] for p, k in op['noise']]
+                    op['deco'] = {k: v for k, v in op['deco'].items() if int(k) < len(op['rows'])}
+                    if op.get('bad_row') is not None:
+                        op['bad_row'] = min(op['bad_row'], len(op['rows']) - 1)
+        elif d.startswith('restart:'):
+            if len(world.reps) < 4:
+                op = gen.gen_restart(rng, rep, cfg, d.split(':')[1],
+                                     faults=spec.get('io_faults') and rng.random() < 0.35)
         elif len(world.reps) < 4 or rng.random() < 0.3:
             op = gen.gen_slice(rng, rep, cfg) if d == 'slice' else gen.gen_convert(rng, rep, cfg)
             if len(world.reps) >= 4 and op['op'] != 'slice2':
                 op = None
         if op is not None:
             op['g'] = rep_i
+            if op['op'] in ('slice', 'convert', 'restart', 'parse'):
+                op['rid'] = world.next_rid
+                world.next_rid += 1
             return op
     if fault in ('F-BULK', 'F-ITER'):
         op = gen.gen_bulk(rng, rep, cfg, fault)
@@ -266,7 +306,8 @@ def gen_sched_run(world, rng, cfg):
     from .model import ModelGraph
     spec = FOCUS[world.focus]
     d, r = rng.choice(spec['roots'])
-    root = {'op': 'root', 'directed': bool(d), 'removal': bool(r)}
+    root = {'op': 'root', 'directed': bool(d), 'removal': bool(r), 'rid': 0}
+    world.next_rid = 1
     nodes = cfg['nodes']
     allpairs = [(u, v) for i, u in enumerate(nodes) for v in (nodes if d else nodes[i:])]
     rng.shuffle(allpairs)
@@ -316,7 +357,8 @@ def gen_roots(world, rng, cfg):
     out = []
     for _ in range(n):
         d, r = rng.choice(spec['roots'])
-        out.append({'op': 'root', 'directed': bool(d), 'removal': bool(r)})
+        out.append({'op': 'root', 'directed': bool(d), 'removal': bool(r), 'rid': world.next_rid})
+        world.next_rid += 1
     return out
 
 
@@ -367,8 +409,10 @@ def run(focus, seed=None, ops_list=None, profile=None, keep_log=False):
     world.evals = 0
     rng = random.Random(seed) if ops_list is None else None
     signal.signal(signal.SIGALRM, _alarm)
-    signal.alarm(30)
+    signal.alarm(int(__import__("os").environ.get("DST_ALARM","30")))
     executed, outs = [], []
+    world.fs = simfs.SimFS()
+    world.fs.install()
     try:
         if ops_list is None:
             cfg = gen.swarm(rng, focus)
@@ -412,6 +456,10 @@ def run(focus, seed=None, ops_list=None, profile=None, keep_log=False):
             res.status, res.note = 'abort', 'hang'
     finally:
         signal.alarm(0)
+        world.fs.uninstall()
+    res.stats = world.stats
+    for k, v in world.fs.fired.items():
+        res.stats['simfs.fired.' + k] += v
     res.ops = executed
     res.outs = outs
     res.stats = world.stats
@@ -424,12 +472,32 @@ def run(focus, seed=None, ops_list=None, profile=None, keep_log=False):
     return res
 
 
-def fault_variants(res, limit=12):
+def fault_variants(res, limit=24):
     """fault enumeration: for every failed bulk call of a finished run, the same history with
     the failing element moved to every other position / the iterable failing after every
     other count (each variant is a complete, independent history)"""
     out = []
     for i, (op, o) in enumerate(zip(res.ops, res.outs)):
+        if op.get('op') == 'restart' and o.get('cls') == 'restart' and op.get('via') != 'json' \
+                and op.get('fail_write') is None and op.get('fail_read') is None and not op.get('fail_close'):
+            # I/O fault enumeration: every raw write index, every raw read index, and the close
+            W, R = o.get('n_writes', 0), o.get('n_reads', 0)
+            for k in list(range(min(W, 10))) + ([W - 1] if W > 10 else []):
+                out.append(res.ops[:i] + [dict(op, fail_write=k)] + res.ops[i + 1:])
+            for k in list(range(min(R, 10))) + ([R - 1] if R > 10 else []):
+                out.append(res.ops[:i] + [dict(op, fail_read=k)] + res.ops[i + 1:])
+            out.append(res.ops[:i] + [dict(op, fail_close=True)] + res.ops[i + 1:])
+            if len(out) >= limit:
+                break
+            continue
+        if op.get('op') == 'parse' and o.get('cls') == 'parse' and op.get('bad_row') is None:
+            # conversion failure enumerated over every row index
+            for k in range(len(op['rows'])):
+                fld = 'time' if (op.get('nodekind') != 'int' or k % 2) else 'node'
+                out.append(res.ops[:i] + [dict(op, bad_row=k, bad_field=fld)] + res.ops[i + 1:])
+            if len(out) >= limit:
+                break
+            continue
         if op.get('op') != 'bulk' or not o.get('fault') or op.get('kind') != 'from':
             continue
         items = op['items']
